@@ -215,3 +215,58 @@ CONTRACTS['community_louvain#level'] = Contract(
                  'mb = np.argmax(dQ)': "check('argmax-attains-max', dQ[mb] == max_dq); check('move-changes-module', mb != ma)"},
     ensures=[('level-never-lowers-the-objective', "QrawB(B, Mb, n0) >= QrawB(B, Mb0, n0)"),
              ('bookkeeping-consistent-at-level-end', "forall(lambda x, mm: implies(And(inr(x, n0), inr(mm, n0)), Hnm[x, mm] == modsum(B, Mb, x, mm, n0)))")])
+
+
+# ---- modularity_finetune_und_sign (C07: never below the start in the signed quality the routine optimises) ------------------------------
+QTYPES = ('smp', 'gja', 'sta', 'pos', 'neg')
+
+
+def _setup_sign(eng, st):
+    n = z3.Int('n')
+    st.pc.append(n >= 1)
+    st.env['W'] = alloc(st, 2, z3.Const('W0in', A2R), (n, n), REAL)
+    st.ghost['n0'] = n
+    st.env['ci'] = alloc(st, 1, z3.Const('ci_in', A1I), (n,), INT)
+    st.env['gamma'] = z3.Real('gamma')
+    st.env['seed'] = Opaque('seed')
+    bs = {q: z3.Bool('qtype_is_' + q) for q in QTYPES}
+    st.pc.append(z3.AtMost(*bs.values(), 1))
+    st.env['qtype'] = Opaque('strsym', eq=lambda lit: bs.get(lit, z3.BoolVal(False)))
+
+
+QS = "umul(d0, Qrawg(W0, %s, gamma, s0, n)) - umul(d1, Qrawg(W1, %s, gamma, s1, n))"
+KINV_SIGN = [
+    ('K1-node-to-module-sums', "forall(lambda x, mm: implies(And(inr(x, n), inr(mm, n)), And(Knm0[x, mm] == modsum(W0, ci, x, mm, n), Knm1[x, mm] == modsum(W1, ci, x, mm, n))))"),
+    ('K2-node-degrees', "forall(lambda x: implies(inr(x, n), And(Kn0[x] == rsum(W0, x, n), Kn1[x] == rsum(W1, x, n))))"),
+    ('K3-module-degrees', "forall(lambda mm: implies(inr(mm, n), And(Km0[mm] == degsum(W0, ci, mm, n), Km1[mm] == degsum(W1, ci, mm, n))))"),
+    ('LAB-labels-in-range', "forall(lambda y: implies(inr(y, n), And(ci[y] >= 1, ci[y] <= n)))"),
+    ('QMONO-signed-quality-never-below-start', (QS % ('ci', 'ci')) + " >= " + (QS % ('ci0', 'ci0'))),
+    ('FRAME-arguments-untouched', "And(unchanged('W'), unchanged('ci'), n == n0)"),
+]
+SIGN_LEMMAS = "assume(lemma_modularity(W0, ci, n), lemma_modularity(W1, ci, n))"
+CONTRACTS['modularity_finetune_und_sign'] = Contract(
+    MOD, 'modularity_finetune_und_sign', ['W', 'qtype', 'gamma', 'ci', 'seed'], setup=_setup_sign, nonlinear='uf',
+    requires=[('undirected', "forall(lambda x, y: implies(And(inr(x, n0), inr(y, n0)), W[x, y] == W[y, x]))")],
+    loops={
+        'for m in range(int(np.max(ci)))': {'name': 'init', 'inv': [
+            ('INIT-columns-done', "forall(lambda x, mm: implies(And(inr(x, n), mm >= 0, mm < _it), And(Knm0[x, mm] == modsum(W0, ci, x, mm, n), Knm1[x, mm] == modsum(W1, ci, x, mm, n))))"),
+            ('INIT-columns-todo', "forall(lambda x, mm: implies(And(inr(x, n), mm >= _it, mm < n), And(Knm0[x, mm] == 0, Knm1[x, mm] == 0)))")]},
+        'while flag': {'name': 'sweeps', 'inv': KINV_SIGN},
+        'for u in rng.permutation(n)': {'name': 'moves', 'inv': KINV_SIGN},
+    },
+    abstract={'m = np.tile(ci, (n, 1))': {}, 'q0 = (W0 - gamma * np.outer(Kn0, Kn0) / s0) * (m == m.T)': {}, 'q1 = (W1 - gamma * np.outer(Kn1, Kn1) / s1) * (m == m.T)': {},
+              'q = d0 * np.sum(q0) - d1 * np.sum(q1)': {'sorts': {'q': 'real'}}},
+    ghost_after={
+        "ci += 1#0": "ci0 = snapshot(ci)",
+        "flag = True#0": "assume(lemma_modularity(W0, ci, n), lemma_modularity(W1, ci, n), lemma_knm_sums(Knm0, W0, ci, n, 'out'), lemma_knm_sums(Knm1, W1, ci, n, 'out'))",
+        "ma = ci[u] - 1": SIGN_LEMMAS,
+        "mb = np.argmax(dq)": "check('argmax-attains-max', dq[mb] == max_dq)",
+        "ci[u] = mb + 1": "check('move-changes-module', mb != ma); "
+                          "assume(lemma_umul_linear(d0, Qrawg(W0, ci, gamma, s0, n), Qrawg(W0, ci_pre, gamma, s0, n)), lemma_umul_linear(d1, Qrawg(W1, ci, gamma, s1, n), Qrawg(W1, ci_pre, gamma, s1, n)), "
+                          "lemma_umul_linear(d0, dq0[mb], 0), lemma_umul_linear(d1, dq1[mb], 0))",
+        "ci += 1#1": "assume(lemma_relabel_g(W0, ci, ci_before_final, gamma, s0, n), lemma_relabel_g(W1, ci, ci_before_final, gamma, s1, n))",
+    },
+    ghost_before={"ci[u] = mb + 1": "ci_pre = snapshot(ci)", "_, ci = np.unique(ci, return_inverse=True)#1": "ci_before_final = snapshot(ci)"},
+    ensures=[('C07-signed-quality-not-worse-than-canonicalised-start', (QS % ('result(0)', 'result(0)')).replace(', n)', ', n0)') + " >= " + (QS % ('ci0', 'ci0')).replace(', n)', ', n0)')),
+             ('C02-labels-in-1..k', "forall(lambda y: implies(inr(y, n0), And(result(0)[y] >= 1, result(0)[y] <= n0)))"),
+             ('arguments-untouched', "And(unchanged('W'), unchanged('ci'))")])
